@@ -115,9 +115,61 @@ def _short(p):
     return "::".join(p.split("::")[-2:])
 
 
+def onehop_reverse_guard_rule(F, R):
+    """SIB-onehop-guard: the three reversals of a one-hop path (view try_reverse, model try_reverse, model
+    try_into_reversed_standard_path) refuse an incomplete path by the same test — one field of hop 1 compared with 0.  They
+    must read the same raw field of the same hop: a view that tests a direction-normalised accessor while the model tests the
+    raw field makes view and model disagree on Ok/Err (and on the bytes) for the same path."""
+    import facts as FX
+    sites = (("sciparse::proto::dataplane_path::onehop::view::OneHopPathView::try_reverse", "view"),
+             ("sciparse::proto::dataplane_path::onehop::model::OneHopPath::try_reverse", "model"),
+             ("sciparse::proto::dataplane_path::onehop::model::OneHopPath::try_into_reversed_standard_path", "model"))
+    got = {}
+    for p, kind in sites:
+        b = F.body(p)
+        if b is None:
+            R.anchor_missing(p)
+            continue
+        R.fn(p)
+        for g in sorted(b.live_blocks()):
+            t = b.term(g)
+            if t[0] != "switch":
+                continue
+            o = FX.strip_sites(b.origin(t[1]))
+            if not (o[0] == "bin" and o[1] in ("Eq", "Ne")):
+                continue
+            txt = _fmt(o, 2000)
+            if not re.search(r" (Eq|Ne) 0\)$", txt):
+                continue
+            m = re.search(r"HopFieldView::(\w+)\(&\*OneHopPathView::hop_fields\(&\*param#1\)\[(\d+)\]", txt) if kind == "view" else None
+            if m:
+                got[p] = (m.group(1), int(m.group(2)), txt)
+            else:
+                m = re.search(r"param#1\.hops\[(\d+)\]\.(\w+)", txt)
+                if m:
+                    got[p] = (m.group(2), int(m.group(1)), txt)
+                else:
+                    m = re.search(r"(?:HopFieldView|HopField)::(\w+)\(", txt)
+                    if m:
+                        got[p] = (m.group(1), None, txt)
+            break
+    R.floor("SIB-onehop-guard", len(got), 3, "one-hop reversals with a recognised completeness guard")
+    keys = {(v[0], v[1]) for v in got.values()}
+    ok = len(keys) == 1 and len(got) == 3
+    R.ob("SIB-onehop-guard", "view and model reversals of a one-hop path test the same field of the same hop: %s" % sorted(keys, key=str), ok or len(got) < 3, len(got) == 3,
+         {"rule": "SIB-onehop-guard", "guards": {k: list(v[:2]) for k, v in got.items()}})
+    if len(got) == 3 and not ok:
+        major = max(keys, key=lambda k: sum(1 for v in got.values() if (v[0], v[1]) == k))
+        for p, v in sorted(got.items()):
+            if (v[0], v[1]) != major:
+                R.violation("SIB-onehop-guard", p + "/guard", "%s refuses an incomplete one-hop path by testing %s of hop %s while its siblings test %s of hop %s: "
+                            "view and model disagree on Ok/Err for the same path (guard: %s)" % (p.rsplit("::", 2)[-2] + "::" + p.rsplit("::", 1)[-1], v[0], v[1], major[0], major[1], v[2][:160]), F.loc(p))
+
+
 def run(F, R, tier, cfg):
     expiry_sibling_rule(F, R)
     reverse_index_sibling_rule(F, R)
+    onehop_reverse_guard_rule(F, R)
     fa = T.FA(F)
     refs, byval = fa_instances(F)
     for p in refs:
